@@ -39,14 +39,14 @@ func drawMeasurement(t *Tape) measFactory {
 			return measurements.NewExponentialAverageMeasurement(w, wu)
 		}}
 	case 3:
-		alpha := []float64{0.05, 0.5, 1.0, 0.2, 0.01, 0.34}[t.Intn(6, "alpha")]
+		alpha := []float64{0.05, 0.5, 1.0, 0.2, 0.01, 0.34, 0.8, 0.7, 0.95, 1.0 / 49, 0.4}[t.Intn(11, "alpha")]
 		return measFactory{fmt.Sprintf("sema(alpha=%g)", alpha), func() core.MeasurementInterface {
 			m, _ := measurements.NewSimpleExponentialMovingAverage(alpha)
 			return m
 		}}
 	case 4:
-		a1 := []float64{0.05, 0.5, 1.0, 0.2}[t.Intn(4, "alpha-avg")]
-		a2 := []float64{0.05, 0.5, 1.0, 0.2}[t.Intn(4, "alpha-var")]
+		a1 := []float64{0.05, 0.5, 1.0, 0.2, 0.8, 0.7}[t.Intn(6, "alpha-avg")]
+		a2 := []float64{0.05, 0.5, 1.0, 0.2, 0.8, 0.7}[t.Intn(6, "alpha-var")]
 		return measFactory{fmt.Sprintf("variance(%g,%g)", a1, a2), func() core.MeasurementInterface {
 			m, _ := measurements.NewSimpleMovingVariance(a1, a2)
 			return m
@@ -54,8 +54,8 @@ func drawMeasurement(t *Tape) measFactory {
 	default:
 		p := []float64{0.9, 0.5, 0.99, 0.1}[t.Intn(4, "p")]
 		d := []float64{0.01, 1, 0.5}[t.Intn(3, "delta")]
-		a1 := []float64{0.05, 0.5, 0.2, 1.0}[t.Intn(4, "alpha-avg")]
-		a2 := []float64{0.05, 0.5, 0.2, 1.0}[t.Intn(4, "alpha-var")]
+		a1 := []float64{0.05, 0.5, 0.2, 1.0, 0.8, 0.7}[t.Intn(6, "alpha-avg")]
+		a2 := []float64{0.05, 0.5, 0.2, 1.0, 0.8, 0.7}[t.Intn(6, "alpha-var")]
 		return measFactory{fmt.Sprintf("percentile(p=%g,delta=%g,%g,%g)", p, d, a1, a2), func() core.MeasurementInterface {
 			m, _ := measurements.NewWindowlessMovingPercentile(p, d, a1, a2)
 			return m
